@@ -876,7 +876,7 @@ def c02(tier, replay=None):
         pv.write_ndjson(trace, [rep["detail"]["system"], rep["detail"]["run"]])
         inc = 0
     else:
-        trace, inc = run_mc(chk, "bmc", 300 if T else 90, 6 if T else 5, T, "bmc")
+        trace, inc = run_mc(chk, "bmc", 150 if T else 90, 6 if T else 5, T, "bmc")
     st = mc_rejects(chk, trace, {"C02"})
     n = count_runs(trace)
     # the command-line tool end to end (btor2 text in, verdict out), incl. systems without states
@@ -1040,7 +1040,7 @@ def c15(tier, replay=None):
         pv.write_ndjson(trace, [rep["detail"]["record"]])
         inc = 0
     else:
-        trace, inc = run_mc(chk, "faults", 8 if T else 3, 3, T, "faults", extra=["--max-pos", 200 if T else 30, "--stall", 40])
+        trace, inc = run_mc(chk, "faults", 5 if T else 3, 3, T, "faults", extra=["--max-pos", 120 if T else 30, "--stall", 40])
     st = batch_check(chk, "Trace_C15", trace, lambda rj, rec: {"why": rj["why"], "fault": rec.get("cfg", {}).get("fault_kind", ""), "engine": rec.get("cfg", {}).get("engine", "")},
                      lambda rj, rec: {"record": {k: v for k, v in rec.items() if k not in ("sys", "script")}, "tlc": rj}, shards=8)
     nf = sum(1 for line in open(trace) if '"ev":"Fault"' in line)
